@@ -36,3 +36,20 @@ Proof. exact c04'_oracle_model. Qed.
 
 Print Assumptions C04_oracle_accepts_model_traces.
 Print Assumptions C04_corrected_oracle_accepts_model_traces.
+
+(** histories with concurrent pairs.  The pair rule [c04_pair]: the replica that serves the queued read was RW
+    before the pair unless the first request promotes it (verify, set-mode RW, start), and it did not fail the
+    first request when that request is an I/O that reached the replicas (gate open, inside the volume) *)
+From Jiva Require Import Ctl.Model Ctl.Corr Ctl.Oracles Ctl.Proofs Ctl.OracleProofs2 Ctl.OracleProofsX Ctl.OracleProofsX2.
+
+Theorem C04_oracle_accepts_model_traces_with_pairs : forall xs rf0 n w0, (1 <= rf0)%nat -> forallb xev_wf xs = true ->
+  no_invalid (init rf0 w0) (flatten xs) ->
+  walk (lift (c04_step rf0) (c04_pair rf0)) 0 (obs0 rf0 n w0) xs (trace n (init rf0 w0) xs) = None.
+Proof. exact c04_oracle_model_x. Qed.
+
+Theorem C04_corrected_oracle_accepts_model_traces_with_pairs : forall xs rf0 n w0, (1 <= rf0)%nat -> forallb xev_wf xs = true ->
+  walk (lift (c04_step' rf0) (c04_pair rf0)) 0 (obs0 rf0 n w0) xs (trace n (init rf0 w0) xs) = None.
+Proof. exact c04'_oracle_model_x. Qed.
+
+Print Assumptions C04_oracle_accepts_model_traces_with_pairs.
+Print Assumptions C04_corrected_oracle_accepts_model_traces_with_pairs.
